@@ -115,6 +115,10 @@ def e2e_suite(ctx):
     probs.append((dict(streams=[dict(zone="A", name="h", t_supply=200.0, t_target=100.0, heat_flow=100.0, dt_cont=10.0, htc=1.0),
                                 dict(zone="B/C", name="c", t_supply=50.0, t_target=150.0, heat_flow=200.0, dt_cont=5.0, htc=1.0)],
                        utilities=[]), dict(zones=2, shapes=["only_hot", "only_cold"], regime="none")))
+    # D44 witness: a 10 kW cold stream only 4e-6 K wide is inactive in every interval (window tol*10) and loses its whole duty
+    probs.append((dict(streams=[dict(zone="Z", name="c", t_supply=100.0, t_target=100.000004, heat_flow=10.0, dt_cont=0.0, htc=1.0),
+                                dict(zone="Z", name="h", t_supply=200.0, t_target=150.0, heat_flow=50.0, dt_cont=0.0, htc=1.0)],
+                       utilities=[]), dict(zones=1, shapes=["narrow"], regime="none")))
     for _ in range(n):
         p, m = pc.gen_problem(ctx.rng)
         if ctx.rng.random() < 0.25 and len(p["streams"]) > 2:
@@ -146,6 +150,9 @@ def e2e_suite(ctx):
         ctx.sample(dict(suite="e2e", record=k, streams=len(xs), reported=tg), limit=6)
         if v[0] == 0:
             agree += 1
+        elif v[1] == 144:
+            ctx.fail("activity-window-swallows-narrow-stream", f"record {k}: reported {tg} differs from the exact cascade; a stream is narrower "
+                     "than twice the activity window", suite="e2e", input=dict(problem=prob, record=k), impl_output=tg, predicate="c01_b eps6")
         else:
             if bad < 3:
                 ctx.fail("di-targets-not-exact", f"record {k}: reported (Qh,Qc,Qr)={tg} differs from the exact cascade of its streams",
